@@ -3,12 +3,13 @@
    (harness/cmd/storagedep) against StorageDeposit.tla. One NDJSON line per committed
    transaction (one VM message each):
      Init  {st}
-     Msg   {caller, limit, fee, ok, setprice, setrestr, diffs:{realm: bytes}, st, [nodiffs]}
+     Msg   {caller, limit, fee, ok, setprice, setrestr, odiffs:{realm: bytes}, pdiffs:{realm: bytes}, st, [nodiffs]}
      Reset {}                      a new history (Init) follows
-   diffs = the per-realm byte deltas RE-DERIVED FROM THE RAW STORE (objects under the realm's
-   id + its chain/params entries); for a failed message they are the deltas measured on its
+   odiffs / pdiffs = the per-realm byte deltas RE-DERIVED FROM THE RAW STORE (objects under the
+   realm's id / its chain/params entries, key + value bytes as the params keeper counts them);
+   for a failed message they are the deltas measured on its
    twin (same message, same realm state, well-funded caller, default limit).
-   st = {storage, deposit (decoded from the raw realm record), disk (bytes on disk), dbal, bal,
+   st = {storage, deposit (decoded from the raw realm record), odisk + pdisk (bytes on disk), dbal, bal,
    price, restricted} after the transaction. Every logged field is constrained: the message's
    verdict must be the spec's, every counter and balance exactly what the action yields, the
    price changes only by what the message wrote, and Realm.Storage = bytes on disk
@@ -16,8 +17,8 @@
 EXTENDS StorageDeposit, Json
 
 TheTrace == ndJsonDeserialize("storagedep_trace.ndjson")
-VARIABLES l, disk
-tvars == <<vars, l, disk>>
+VARIABLE l
+tvars == <<vars, l>>
 
 TRealms == {"p", "a", "b", "c"}
 TOrder == <<"p", "a", "b", "c">>     \* gno.land/r/sys/params < gno.land/r/verif/sda < sdb < sdc
@@ -31,14 +32,14 @@ FnA(rec) == [a \in TAccounts \cup {Collector} |-> rec[a]]
 Load(st) ==
   /\ storage' = FnR(st.storage) /\ deposit' = FnR(st.deposit) /\ dbal' = FnR(st.dbal)
   /\ bal' = FnA(st.bal) /\ price' = st.price /\ restricted' = st.restricted
-  /\ disk' = FnR(st.disk)
+  /\ objb' = FnR(st.odisk) /\ parb' = FnR(st.pdisk)
 
 TraceInit ==
   /\ l = 2 /\ TheTrace[1].act = "Init"
   /\ LET st == TheTrace[1].st IN
        /\ storage = FnR(st.storage) /\ deposit = FnR(st.deposit) /\ dbal = FnR(st.dbal)
        /\ bal = FnA(st.bal) /\ price = st.price /\ restricted = st.restricted
-       /\ disk = FnR(st.disk)
+       /\ objb = FnR(st.odisk) /\ parb = FnR(st.pdisk)
   /\ hist = <<>>
   /\ TLCSet(1, 0)
 
@@ -52,31 +53,32 @@ TReset ==
 Post(st) ==
   /\ storage' = FnR(st.storage) /\ deposit' = FnR(st.deposit) /\ dbal' = FnR(st.dbal)
   /\ bal' = FnA(st.bal) /\ price' = st.price /\ restricted' = st.restricted
+  /\ objb' = FnR(st.odisk) /\ parb' = FnR(st.pdisk)        \* the bytes measured on disk
 
 TMsg ==
   /\ IsEv("Msg")
   /\ LET e == Ln
-         df == FnR(e.diffs)
+         od == FnR(e.odiffs)
+         pd == FnR(e.pdiffs)
          np == IF e.setprice = 0 THEN price ELSE e.setprice
          nr == IF e.setrestr = "on" THEN TRUE ELSE IF e.setrestr = "off" THEN FALSE ELSE restricted
      IN IF "nodiffs" \in DOMAIN e
         THEN \* failed for a reason other than the deposit (its twin failed too): nothing but the fee
-             /\ ~e.ok /\ df = [r \in TRealms |-> 0]
+             /\ ~e.ok /\ od = [r \in TRealms |-> 0] /\ pd = [r \in TRealms |-> 0]
              /\ bal' = [bal EXCEPT ![e.caller] = @ - e.fee]
-             /\ UNCHANGED <<storage, deposit, dbal, price, restricted>>
+             /\ UNCHANGED <<storage, deposit, dbal, price, restricted, objb, parb>>
              /\ Post(e.st)
-        ELSE /\ Msg(e.caller, e.limit, e.fee, df, np, nr)
-             /\ MsgOK(e.caller, e.limit, e.fee, df) = e.ok          \* the verdict (too small a limit fails)
+        ELSE /\ Msg(e.caller, e.limit, e.fee, od, pd, np, nr)
+             /\ MsgOK(e.caller, e.limit, e.fee, Sum(od, pd)) = e.ok          \* the verdict (too small a limit fails)
              /\ Post(e.st)
-  /\ disk' = FnR(Ln.st.disk)
   /\ UNCHANGED hist
   /\ l' = l + 1
 
 TraceNext == TReset \/ TMsg
 TraceSpec == TraceInit /\ [][TraceNext]_tvars
 
-\* the recorded counter is the number of bytes on disk
-StorageMatchesDisk == \A r \in TRealms : storage[r] = disk[r]
+\* the recorded counter is the number of bytes on disk: objects + chain/params entries
+StorageMatchesDisk == StorageIsSum
 
 HighWater == TLCSet(1, IF l > TLCGet(1) THEN l ELSE TLCGet(1))
 Accepted == IF TLCGet(1) = Len(TheTrace) + 1 THEN TRUE
